@@ -214,10 +214,32 @@ def regmc_edges(work, res, key="regseqmc"):
 
 
 def regmc_batch(work, res, quick, rng):
+    import json
     edges = regmc_edges(work, res)
+    # A rejected build leaves the model's state as it was, so no shortest path contains one.  What a failed build leaves
+    # behind in the CODE is exactly what matters, so every (state, rejected request) is followed by further requests made
+    # in that state: path + rejected + request.
+    pkey = lambda e: json.dumps(e["path"] if isinstance(e["path"], list) else [])
+    by_state = {}
+    for e in edges:
+        by_state.setdefault(pkey(e), []).append(e)
+    after = []
+    for k, es in sorted(by_state.items()):
+        rej = [e for e in es if e["kind"] == "rejected"]
+        oth = [e for e in es if e["kind"] in ("built", "hit", "fast")]
+        for r in rej:
+            qs = list(oth)
+            rng.shuffle(qs)
+            first = k == "[]"          # from the empty registry: every request after every rejected build
+            for q in (qs if first else qs[: (2 if quick else 6)]):
+                path = (q["path"] if isinstance(q["path"], list) else []) + [{"s": r["s"], "byptr": r["byptr"]}]
+                after.append({"path": path, "s": q["s"], "byptr": q["byptr"], "kind": "after-rejected-" + q["kind"], "nev": q["nev"]})
     if quick:
         rng.shuffle(edges)
-        edges = edges[:150]
+        rng.shuffle(after)
+        edges = edges[:120] + [a for a in after if len(a["path"]) == 1] + [a for a in after if len(a["path"]) > 1][:150]
+    else:
+        edges = edges + after
     res.extra["regseqmc"]["transitions_replayed"] = len(edges)
     defs, scen = {}, []
     for k, e in enumerate(edges):
